@@ -29,7 +29,11 @@ pub fn run(cfg: &Cfg, rep: &mut Report) -> bool {
         "C02" => c02::run(cfg, rep),
         "C03" => c03::run(cfg, rep),
         "C04" => c04::run(cfg, rep),
-        "C05" => c05::run(cfg, rep),
+        "C05" => {
+            c05::run(cfg, rep);
+            // the hook as the documented device wiring sees it, with the library's own commands as handlers
+            status::run(cfg, rep, status::Focus::C05)
+        }
         "C06" => c06::run(cfg, rep),
         "C07" => c07::run(cfg, rep),
         "C08" => c08::run(cfg, rep),
